@@ -1193,3 +1193,71 @@ def c03(ctx):
                       {"base_requests": nbase, "perturbed_requests": sum(1 for b in meta if b >= 0),
                        "predicates": ["Distinct: a significant change (Settings!PhraseKey / canonical setting) changes the digest part"]})
     return "model_checking", cov, ASSUME_COMMON + ["collision resistance of the digests is the oracle for 'took part in the hash'"]
+
+
+@prop("C18")
+def c18(ctx):
+    quick = ctx.tier == "quick"
+    cfgev = config_event(ctx)
+    E = cfgev["E"]
+    rng = ctx.rng
+    # model-level laws over every class string up to length 4
+    laws = ctx.tlc("ChecksaltMC.tla", "ChecksaltMC.cfg", workers=8, timeout=1200)
+    if laws["violated"] or not laws["ok"]:
+        raise Broken("ChecksaltMC: %s\n%s" % (laws["violated"], laws["out"][-1500:]))
+    # the implementation on EVERY byte string of length <= 3 (printable length 4 in thorough), by class
+    sw = ctx.build_tool("hooks", "sweep18.c", "sweep18")
+    b = ctx.build("hooks")
+    r = subprocess.run([sw, os.path.join(b, "libxcv.so"), "3" if quick else "4"], capture_output=True, text=True, timeout=1800)
+    if r.returncode != 0:
+        raise Broken("sweep18 failed: " + r.stderr[-500:])
+    sweep = [json.loads(x) for x in r.stdout.splitlines() if x.startswith("{")]
+    nstrings = sum(e.get("n", 0) for e in sweep)
+    # long strings with each tag, every successful crypt input, preferred method
+    cmds = ["obj 0 0 0", "preferred"]
+    for m in E:
+        for s in gen.valid_settings(m, rng, full=False)[: (12 if quick else 1000)]:
+            cmds.append("checksalt %s" % hx(s))
+            cmds.append("crypt_rn 0 %s %s 32768" % (hx(b"pw"), hx(s)))
+        for L in (20, 100, 383, 384, 385, 1000, 20000):
+            t = gen.PREFIX[m] + gen.salt(rng, L)
+            cmds.append("checksalt %s" % hx(t))
+            t2 = gen.PREFIX[m] + gen.salt(rng, L // 2) + rng.choice(":;*!\\ \x7f\x80\n") + gen.salt(rng, L // 2)
+            cmds.append("checksalt %s" % hx(t2.encode("latin-1")))
+    for s in gen.INVALID_SETTINGS:
+        cmds.append("checksalt %s" % hx(s.encode("latin-1")))
+    for _ in range(200 if quick else 5000):
+        n = rng.choice((4, 5, 6, 8, 13, 30))
+        cmds.append("checksalt %s" % hx(bytes(rng.choice((36, 36, 50, 97, 98, 121, 95, 103, 109, 100, 53, 115, 104, 49, 54, 55, 51, 120, 46, 81, 35, 58, 200)) for _ in range(n))))
+    cmds.append("checksalt -")
+    ev1 = ctx.run_xcv(cmds)
+    v1 = judge(ctx, sweep + ev1, "cs", cfgev)
+    # NULL prefix == preferred prefix, for every count class and random bytes
+    g = []
+    pref = gen.PREFIX[next((m for m in gen.METHODS if m in E and m in ("yescrypt", "bcrypt", "sha512crypt")), "yescrypt")]
+    for c in [0, 1, 2, 4, 5, 6, 7, 11, 12, 13, 31, 1000, 5000, 99999, 2 ** 32]:
+        for nr in (0, 3, 15, 16, 20, 64):
+            rb = bytes(rng.randrange(256) for _ in range(nr))
+            for sz in (192, 30, 80):
+                g.append(gs_cmd("gensalt_rn", pref, c, rb, "len", sz))
+                g.append(gs_cmd("gensalt_rn", None, c, rb, "len", sz))
+    ev2 = ctx.run_xcv(g)
+    annotate_gs(ev2)
+    gi = [i for i, e in enumerate(ev2, 1) if e.get("e") in vlib.GS]
+    for a, bb in zip(gi[0::2], gi[1::2]):
+        ev2[bb - 1]["nprev"] = a
+    for e in ev2:
+        for kk in ("gprev", "sprev", "s192", "fprev", "nprev"):
+            if e.get(kk):
+                e[kk] += 1
+    v2 = ctx.validate_trace([cfgev] + ev2, "TraceGensalt.tla", "TraceGensalt.cfg", "np")
+    for x in v2["viol"]:
+        ev = ([cfgev] + ev2)[x["l"] - 1]
+        ctx.violation(x["p"], "%s failed at call %d (%s)" % (x["n"], x["l"], ev.get("e")), compact(ev))
+    attribute(ctx)
+    cov = mc_coverage(ctx, laws.get("distinct", 1), laws.get("generated", 1), [v1], ev1,
+                      {"byte_strings_swept": nstrings, "class_strings": len(sweep), "exhaustive": True,
+                       "null_vs_preferred_pairs": len(gi) // 2,
+                       "predicates": ["ChecksaltClass (every byte string <= 3%s)" % ("" if quick else ", printable 4"), "Checksalt", "CanHash",
+                                      "Preferred", "NullIsPreferred", "model laws TagOnly/CanHash/ClassInvariance"]})
+    return "model_checking", cov, ASSUME_COMMON
